@@ -17,6 +17,7 @@ ANCHORS = ['pycaption.scc:SCCReader._translate_word', 'pycaption.scc:_SccTimeTra
            'pycaption.scc.specialized_collections:TimingCorrectingCaptionList._update_last_batch',
            'pycaption.scc.specialized_collections:CaptionCreator.create_and_store',
            'pycaption.scc:fix_last_captions_without_ending', 'pycaption.scc:SCCReader.read']
+THOROUGH_SCALE = 2.5        # random budgets of the thorough tier are multiplied by this
 REQUIRE = {'streams_drop': 50, 'streams_nondrop': 50, 'streams_with_offset': 50, 'gaps_closed': 20,
            'gaps_exactly_five_frames': 3, 'gaps_open': 20, 'last_caption_four_seconds': 50,
            'flash_cue_streams': 10, 'times_compared': 500, 'captions_split_same_times': 10,
